@@ -383,6 +383,7 @@ def explore(ctx, res):
                 c = json.load(open(os.path.join(cdir, f)))
                 c["name"] = "corpus:" + f
                 corpus.append(c)
+    early = None
     if ctx.get("replay") and "init" in json.load(open(ctx["replay"])):
         # a resharing / index-gap / store-fault script of engine `net` (vlib/netreshare.py)
         cov, _ = netreshare.replay_part(ctx, res, json.load(open(ctx["replay"])))
@@ -393,7 +394,11 @@ def explore(ctx, res):
         plan = [("quick", [dict(rp["case"], ops=rp["ops"])])]
     elif ctx["deep"]:
         # something upstream broke (proof, translator, build): look for a concrete failing input, cheapest scripts first
-        plan = [("quick", corpus + configs("quick", rng)), ("thorough", configs("thorough", rng))]
+        # (the resharing / index-gap / store-fault scripts are few and aimed: they go first)
+        early = netreshare.explore_part(ID, ctx, res)
+        plan = [("quick", corpus + configs("quick", rng))]
+        if not any(f for _, f in res.violations):
+            plan.append(("thorough", configs("thorough", rng)))
     else:
         plan = [(ctx["tier"], corpus + configs(ctx["tier"], rng))]
     results = []
@@ -474,7 +479,7 @@ def explore(ctx, res):
     res.cov["model_exact_match"] = {"logged_lines": lines, "lines_where_heads_equal_model": exact}
     # liveness ACROSS A RESHARING, with index gaps and with a failing store (engine `net`, second part)
     if not ctx.get("replay"):
-        rcov, rres = netreshare.explore_part(ID, ctx, res)
+        rcov, rres = early if early is not None else netreshare.explore_part(ID, ctx, res)
         res.cov["evaluations"] += sum(rcov["ops"].values())
         res.cov["distinct_nontrivial"] += sum(1 for r in rres if r.get("res"))
         res.cov["traces_validated_against_impl"] += rcov["validated_against_model"]
